@@ -11,6 +11,7 @@ package respondent
 //@   lock Mutex level 20
 //@   guarded_by Mutex: closed ttl sendQLen recvQLen sizeQ recvQ contexts
 //@   immutable: defCtx closeQ
+//@   elem_invariant recvQ: !shared(elem.m) && elem.m != nil && elem.p != nil
 //@
 //@ struct context
 //@   guarded_by s.Mutex: closed recvExpire sendExpire bestEffort recvPipe backtrace
